@@ -77,6 +77,21 @@ class Project(object):
         self._context_cache.clear()
         yield
 
+    def get_search_path(self, name):
+        # type: (str) -> list[str]
+        """Where a module is looked for: a submodule only under the first
+        path entry that has its top-level package (or module), like importlib"""
+        path = self.get_path()
+        head, sep, _ = name.partition('.')
+        if sep:
+            for p in path:
+                hpath = os.path.join(p, head)
+                if os.path.exists(os.path.join(hpath, '__init__.py')) \
+                        or any(os.path.exists(hpath + s) for s in SUFFIXES):
+                    return [p]
+
+        return path
+
     def get_nmodule(self, name, filename):
         # type: (str, str) -> SourceModule | ImportedModule
         return self.get_module(self.norm_package(name, filename))
@@ -98,7 +113,7 @@ class Project(object):
         except KeyError:
             pass
 
-        path = self.get_path()
+        path = self.get_search_path(name)
         filename = None
         is_source = False
         for p in path:
